@@ -342,4 +342,39 @@ example :
 
 end DataClass
 
+/-! ### the two halves joined: defaults copied by (any function satisfying the generated) `copy_value` -/
+
+section Join
+open Utv.C03C
+
+/-- **data classes over `CVal` with the real `copy_value`**: `FieldOk.copied` is discharged by `C03_copy_value_identity` for
+well-formed defaults; what remains per field is idempotence of its type's parse and conformance of its default -/
+theorem C03_dataclass_idempotent_copy (W : World) (rec : CVal → C03C.M CVal) (hrec : IsCopyValue W rec) (absent : CExc)
+    (fs : List (FieldD CVal CExc)) (input r : List (String × CVal)) (hnd : (fs.map (·.key)).Nodup)
+    (hidem : ∀ f ∈ fs, ∀ x y, f.parse x = .ok y → f.parse y = .ok y)
+    (hconf : ∀ f ∈ fs, ∀ d, f.default = some d → f.parse d = .ok d ∧ WF W d)
+    (hdrop : ∀ f ∈ fs, ¬ (f.required = true ∧ f.noOutput = true))
+    (h : parseDC rec absent fs input = .ok r) : parseDC rec absent fs r = .ok r :=
+  C03_dataclass_idempotent rec absent fs input r hnd
+    (fun f hf => ⟨hidem f hf, fun d hd => (hconf f hf d hd).1,
+      fun d hd => C03_copy_value_identity W rec hrec d (hconf f hf d hd).2, hdrop f hf⟩) h
+
+/-- non-vacuity with a `FieldOk` term actually built: a field with a nested tuple default, copied by the reference `copy_value` -/
+example (W : World) :
+    let f : FieldD CVal CExc := { key := "lim", parse := .ok, required := false,
+                                   default := some (.seq .tuple [.atom 0, .seq .list [.atom 1]]), noOutput := false }
+    FieldOk (copyRef W) f ∧ parseDC (copyRef W) .typeError [f] [] = .ok [("lim", .seq .tuple [.atom 0, .seq .list [.atom 1]])] ∧
+      parseDC (copyRef W) .typeError [f] [("lim", .seq .tuple [.atom 0, .seq .list [.atom 1]])] =
+        .ok [("lim", .seq .tuple [.atom 0, .seq .list [.atom 1]])] := by
+  refine ⟨⟨?_, ?_, ?_, ?_⟩, rfl, rfl⟩
+  · intro x y h; injection h with h; subst h; rfl
+  · intro d _; rfl
+  · intro d hd
+    simp only [Option.some.injEq] at hd
+    subst hd
+    exact C03_copy_value_identity W (copyRef W) (C03_copy_ref_is_copy_value W) _ (by simp [WF, WFs])
+  · simp
+
+end Join
+
 end Utv.C03
